@@ -5,7 +5,7 @@
    state below only decides which stimuli make sense (cancel needs a subscription, a quiescent check needs every
    gate open, ...). The check script adds the prologue (initial connects) and the epilogue (open gates, release
    holds, quiet). *)
-EXTENDS Naturals, Sequences, FiniteSets, TLC, Json
+EXTENDS Integers, Sequences, FiniteSets, TLC, Json
 
 CONSTANTS Topics, Peers, L, Kinds,
           ConnAtStart, HeldAtStart, TheirAtStart,   \* prologue performed by the driver before the generated part
@@ -13,8 +13,9 @@ CONSTANTS Topics, Peers, L, Kinds,
           MaxRef, MaxFault, MaxRemote, MaxMsg, MaxQuiet
 
 VARIABLES wsubs, relays, kind, conn, gated, held, rup, their, bst, nmsg, faults, remotes, quiets, lastq, hist, n,
-          stale, rstale     \* an already cancelled Subscription / relay-cancel handle of the topic exists
-vars == <<wsubs, relays, kind, conn, gated, held, rup, their, bst, nmsg, faults, remotes, quiets, lastq, hist, n, stale, rstale>>
+          stale, rstale,    \* an already cancelled Subscription / relay-cancel handle of the topic exists
+          gray, direct      \* the scenario pushed p's score below the graylist threshold / made p a direct peer
+vars == <<wsubs, relays, kind, conn, gated, held, rup, their, bst, nmsg, faults, remotes, quiets, lastq, hist, n, stale, rstale, gray, direct>>
 
 RECURSIVE SetToSeq(_)
 SetToSeq(S) == IF S = {} THEN <<>> ELSE LET x == CHOOSE y \in S : TRUE IN <<x>> \o SetToSeq(S \ {x})
@@ -26,6 +27,7 @@ Init ==
     /\ rup = [p \in Peers |-> p \in ConnAtStart] /\ their = TheirAtStart
     /\ bst = "none" /\ nmsg = 0 /\ faults = 0 /\ remotes = 0 /\ quiets = 0 /\ lastq = FALSE /\ hist = <<>> /\ n = 0
     /\ stale = [t \in Topics |-> FALSE] /\ rstale = [t \in Topics |-> FALSE]
+    /\ gray = [p \in Peers |-> FALSE] /\ direct = [p \in Peers |-> FALSE]
 
 Add(acts) == hist' = hist \o acts /\ n' = n + 1 /\ lastq' = FALSE
 K(k) == k \in Kinds /\ n < L
@@ -34,58 +36,58 @@ PeerAct(p) == [a |-> "peer", p |-> p, subs |-> SetToSeq(their[p])]
 
 Subscribe(t) == /\ K("subscribe") /\ wsubs[t] < MaxRef /\ Add(<<[a |-> "subscribe", t |-> t]>>)
                 /\ wsubs' = [wsubs EXCEPT ![t] = @ + 1] /\ kind' = [kind EXCEPT ![t] = IF @ = "none" THEN "normal" ELSE @]
-                /\ UNCHANGED <<stale, rstale, relays, conn, gated, held, rup, their, bst, nmsg, faults, remotes, quiets>>
+                /\ UNCHANGED <<gray, direct, stale, rstale, relays, conn, gated, held, rup, their, bst, nmsg, faults, remotes, quiets>>
 Cancel(t)    == /\ K("cancel") /\ wsubs[t] > 0 /\ Add(<<[a |-> "cancel", t |-> t]>>)
                 /\ wsubs' = [wsubs EXCEPT ![t] = @ - 1] /\ stale' = [stale EXCEPT ![t] = TRUE]
-                /\ UNCHANGED <<rstale, relays, kind, conn, gated, held, rup, their, bst, nmsg, faults, remotes, quiets>>
+                /\ UNCHANGED <<gray, direct, rstale, relays, kind, conn, gated, held, rup, their, bst, nmsg, faults, remotes, quiets>>
 \* several subscriptions on one topic are cancelled in every order: the OLDEST live handle instead of the newest
 CancelOld(t) == /\ K("cancelOld") /\ wsubs[t] > 1 /\ Add(<<[a |-> "cancel", t |-> t, old |-> TRUE]>>)
                 /\ wsubs' = [wsubs EXCEPT ![t] = @ - 1] /\ stale' = [stale EXCEPT ![t] = TRUE]
-                /\ UNCHANGED <<rstale, relays, kind, conn, gated, held, rup, their, bst, nmsg, faults, remotes, quiets>>
+                /\ UNCHANGED <<gray, direct, rstale, relays, kind, conn, gated, held, rup, their, bst, nmsg, faults, remotes, quiets>>
 \* Subscription.Cancel AGAIN on the most recently cancelled handle of t (also a stale Cancel after a re-subscribe, after Close ...)
 CancelAgain(t) == /\ K("cancelAgain") /\ stale[t] /\ Add(<<[a |-> "cancelAgain", t |-> t]>>)
-                /\ UNCHANGED <<stale, rstale, wsubs, relays, kind, conn, gated, held, rup, their, bst, nmsg, faults, remotes, quiets>>
+                /\ UNCHANGED <<gray, direct, stale, rstale, wsubs, relays, kind, conn, gated, held, rup, their, bst, nmsg, faults, remotes, quiets>>
 Relay(t)     == /\ K("relay") /\ relays[t] < MaxRef /\ Add(<<[a |-> "relay", t |-> t]>>)
-                /\ IF kind[t] = "fanout" THEN UNCHANGED <<stale, rstale, relays, kind>>
+                /\ IF kind[t] = "fanout" THEN UNCHANGED <<gray, direct, stale, rstale, relays, kind>>
                    ELSE relays' = [relays EXCEPT ![t] = @ + 1] /\ kind' = [kind EXCEPT ![t] = IF @ = "none" THEN "normal" ELSE @]
-                /\ UNCHANGED <<stale, rstale, wsubs, conn, gated, held, rup, their, bst, nmsg, faults, remotes, quiets>>
+                /\ UNCHANGED <<gray, direct, stale, rstale, wsubs, conn, gated, held, rup, their, bst, nmsg, faults, remotes, quiets>>
 Unrelay(t)   == /\ K("unrelay") /\ relays[t] > 0 /\ Add(<<[a |-> "unrelay", t |-> t]>>)
                 /\ relays' = [relays EXCEPT ![t] = @ - 1] /\ rstale' = [rstale EXCEPT ![t] = TRUE]
-                /\ UNCHANGED <<stale, wsubs, kind, conn, gated, held, rup, their, bst, nmsg, faults, remotes, quiets>>
+                /\ UNCHANGED <<gray, direct, stale, wsubs, kind, conn, gated, held, rup, their, bst, nmsg, faults, remotes, quiets>>
 \* the RelayCancelFunc that was called last is called a second time
 UnrelayAgain(t) == /\ K("unrelayAgain") /\ rstale[t] /\ Add(<<[a |-> "unrelayAgain", t |-> t]>>)
-                /\ UNCHANGED <<stale, rstale, wsubs, relays, kind, conn, gated, held, rup, their, bst, nmsg, faults, remotes, quiets>>
+                /\ UNCHANGED <<gray, direct, stale, rstale, wsubs, relays, kind, conn, gated, held, rup, their, bst, nmsg, faults, remotes, quiets>>
 JoinFan(t)   == /\ K("joinFan") /\ t \in FanTopics /\ kind[t] = "none" /\ Add(<<[a |-> "join", t |-> t, fanoutOnly |-> TRUE]>>)
                 /\ kind' = [kind EXCEPT ![t] = "fanout"]
-                /\ UNCHANGED <<stale, rstale, wsubs, relays, conn, gated, held, rup, their, bst, nmsg, faults, remotes, quiets>>
+                /\ UNCHANGED <<gray, direct, stale, rstale, wsubs, relays, conn, gated, held, rup, their, bst, nmsg, faults, remotes, quiets>>
 Close(t)     == /\ K("close") /\ t \in FanTopics /\ kind[t] # "none" /\ Subs(t) = 0 /\ relays[t] = 0
                 /\ Add(<<[a |-> "closeTopic", t |-> t]>>) /\ kind' = [kind EXCEPT ![t] = "none"]
-                /\ UNCHANGED <<stale, rstale, wsubs, relays, conn, gated, held, rup, their, bst, nmsg, faults, remotes, quiets>>
+                /\ UNCHANGED <<gray, direct, stale, rstale, wsubs, relays, conn, gated, held, rup, their, bst, nmsg, faults, remotes, quiets>>
 
 \* Topic.Close while subscriptions or relays exist is refused (nothing changes; cancels afterwards work as usual)
 CloseBusy(t) == /\ K("closeBusy") /\ kind[t] # "none" /\ (Subs(t) > 0 \/ relays[t] > 0) /\ Add(<<[a |-> "closeTopic", t |-> t]>>)
-                /\ UNCHANGED <<stale, rstale, wsubs, relays, kind, conn, gated, held, rup, their, bst, nmsg, faults, remotes, quiets>>
+                /\ UNCHANGED <<gray, direct, stale, rstale, wsubs, relays, kind, conn, gated, held, rup, their, bst, nmsg, faults, remotes, quiets>>
 
 Gate(p)    == /\ K("gate") /\ conn[p] = "up" /\ ~gated[p] /\ Add(<<[a |-> "gate", p |-> p, on |-> TRUE]>>)
               /\ gated' = [gated EXCEPT ![p] = TRUE]
-              /\ UNCHANGED <<stale, rstale, wsubs, relays, kind, conn, held, rup, their, bst, nmsg, faults, remotes, quiets>>
+              /\ UNCHANGED <<gray, direct, stale, rstale, wsubs, relays, kind, conn, held, rup, their, bst, nmsg, faults, remotes, quiets>>
 Ungate(p)  == /\ K("gate") /\ gated[p] /\ Add(<<[a |-> "gate", p |-> p, on |-> FALSE]>>)
               /\ gated' = [gated EXCEPT ![p] = FALSE]
-              /\ UNCHANGED <<stale, rstale, wsubs, relays, kind, conn, held, rup, their, bst, nmsg, faults, remotes, quiets>>
+              /\ UNCHANGED <<gray, direct, stale, rstale, wsubs, relays, kind, conn, held, rup, their, bst, nmsg, faults, remotes, quiets>>
 HPeer(p)   == /\ K("hpeer") /\ conn[p] # "up" /\ ~held[p] /\ Add(<<[a |-> "hpeer", p |-> p, subs |-> SetToSeq(their[p])]>>)
               /\ conn' = [conn EXCEPT ![p] = "up"] /\ held' = [held EXCEPT ![p] = TRUE] /\ rup' = [rup EXCEPT ![p] = TRUE]
-              /\ UNCHANGED <<stale, rstale, wsubs, relays, kind, gated, their, bst, nmsg, faults, remotes, quiets>>
+              /\ UNCHANGED <<gray, direct, stale, rstale, wsubs, relays, kind, gated, their, bst, nmsg, faults, remotes, quiets>>
 Release(p) == /\ K("release") /\ held[p] /\ Add(<<[a |-> "release", p |-> p]>>)
               /\ held' = [held EXCEPT ![p] = FALSE]
-              /\ UNCHANGED <<stale, rstale, wsubs, relays, kind, conn, gated, rup, their, bst, nmsg, faults, remotes, quiets>>
+              /\ UNCHANGED <<gray, direct, stale, rstale, wsubs, relays, kind, conn, gated, rup, their, bst, nmsg, faults, remotes, quiets>>
 
 Fault == faults < MaxFault /\ faults' = faults + 1
 \* the node's OUTBOUND stream is reset by the peer, connection and the peer's own stream survive (D12 territory)
 ResetIn(p) == /\ K("resetIn") /\ conn[p] = "up" /\ ~held[p] /\ Fault /\ Add(<<[a |-> "resetIn", p |-> p]>>)
-              /\ UNCHANGED <<stale, rstale, wsubs, relays, kind, conn, gated, held, rup, their, bst, nmsg, remotes, quiets>>
+              /\ UNCHANGED <<gray, direct, stale, rstale, wsubs, relays, kind, conn, gated, held, rup, their, bst, nmsg, remotes, quiets>>
 \* the node's INBOUND stream dies (reset or EOF); the peer - a correct node - reopens it and re-sends its hello
 RstIn(p, how) == /\ K("rstIn") /\ conn[p] = "up" /\ rup[p] /\ Fault /\ Add(<<[a |-> how, p |-> p], PeerAct(p)>>)
-                 /\ UNCHANGED <<stale, rstale, wsubs, relays, kind, conn, gated, held, rup, their, bst, nmsg, remotes, quiets>>
+                 /\ UNCHANGED <<gray, direct, stale, rstale, wsubs, relays, kind, conn, gated, held, rup, their, bst, nmsg, remotes, quiets>>
 \* the same, but the remote changed its mind about t while its stream was down: the new hello is all the node gets
 \* (a topic dropped from the hello must be forgotten: that is the job of clearPeerFromTopicsState on the closed stream)
 RstInFlip(p, how, t) ==
@@ -93,51 +95,62 @@ RstInFlip(p, how, t) ==
                  /\ LET th == IF t \in their[p] THEN their[p] \ {t} ELSE their[p] \cup {t} IN
                     /\ Add(<<[a |-> how, p |-> p], [a |-> "peer", p |-> p, subs |-> SetToSeq(th)]>>)
                     /\ their' = [their EXCEPT ![p] = th]
-                 /\ UNCHANGED <<stale, rstale, wsubs, relays, kind, conn, gated, held, rup, bst, nmsg, remotes, quiets>>
+                 /\ UNCHANGED <<gray, direct, stale, rstale, wsubs, relays, kind, conn, gated, held, rup, bst, nmsg, remotes, quiets>>
 \* the peer opens a second stream (with its hello) without closing the first: the node replaces its handler
 DupIn(p)   == /\ K("dupIn") /\ conn[p] = "up" /\ rup[p] /\ Fault /\ Add(<<PeerAct(p)>>)
-              /\ UNCHANGED <<stale, rstale, wsubs, relays, kind, conn, gated, held, rup, their, bst, nmsg, remotes, quiets>>
+              /\ UNCHANGED <<gray, direct, stale, rstale, wsubs, relays, kind, conn, gated, held, rup, their, bst, nmsg, remotes, quiets>>
 \* ... and the second stream's hello announces a DIFFERENT, non-empty set S (subset, disjoint or superset of what the
 \* first stream announced): what was learnt on the replaced stream must not survive
 DupInSet(p, S) ==
               /\ K("dupInSet") /\ conn[p] = "up" /\ rup[p] /\ Fault /\ S # their[p] /\ S # {}
               /\ Add(<<[a |-> "peer", p |-> p, subs |-> SetToSeq(S)]>>) /\ their' = [their EXCEPT ![p] = S]
-              /\ UNCHANGED <<stale, rstale, wsubs, relays, kind, conn, gated, held, rup, bst, nmsg, remotes, quiets>>
+              /\ UNCHANGED <<gray, direct, stale, rstale, wsubs, relays, kind, conn, gated, held, rup, bst, nmsg, remotes, quiets>>
 Down(p)    == /\ K("down") /\ conn[p] = "up" /\ ~held[p] /\ ~gated[p] /\ Fault /\ Add(<<[a |-> "down", p |-> p]>>)
               /\ conn' = [conn EXCEPT ![p] = "down"] /\ rup' = [rup EXCEPT ![p] = FALSE]
-              /\ UNCHANGED <<stale, rstale, wsubs, relays, kind, gated, held, their, bst, nmsg, remotes, quiets>>
+              /\ UNCHANGED <<gray, direct, stale, rstale, wsubs, relays, kind, gated, held, their, bst, nmsg, remotes, quiets>>
 Up(p)      == /\ K("up") /\ conn[p] # "up" /\ ~held[p] /\ Add(<<PeerAct(p)>>)
               /\ conn' = [conn EXCEPT ![p] = "up"] /\ rup' = [rup EXCEPT ![p] = TRUE]
-              /\ UNCHANGED <<stale, rstale, wsubs, relays, kind, gated, held, their, bst, nmsg, faults, remotes, quiets>>
+              /\ UNCHANGED <<gray, direct, stale, rstale, wsubs, relays, kind, gated, held, their, bst, nmsg, faults, remotes, quiets>>
 \* the remote changes its mind (or repeats itself: duplicates must be harmless)
 RSub(p, t, flip) == /\ K("rsub") /\ conn[p] = "up" /\ rup[p] /\ remotes < MaxRemote /\ remotes' = remotes + 1
                     /\ LET v == IF flip THEN t \notin their[p] ELSE t \in their[p] IN
                        /\ Add(<<[a |-> "sub", p |-> p, t |-> t, v |-> v]>>)
                        /\ their' = [their EXCEPT ![p] = IF v THEN @ \cup {t} ELSE @ \ {t}]
-                    /\ UNCHANGED <<stale, rstale, wsubs, relays, kind, conn, gated, held, rup, bst, nmsg, faults, quiets>>
+                    /\ UNCHANGED <<gray, direct, stale, rstale, wsubs, relays, kind, conn, gated, held, rup, bst, nmsg, faults, quiets>>
+
+(* gossipsub with peer scoring: the application-specific score of p is pushed below the graylist threshold (the router then
+   answers AcceptNone for p: its messages and control are dropped, its ANNOUNCEMENTS must still be heard) and recovers later *)
+Gray(p)   == /\ K("gray") /\ conn[p] = "up" /\ Add(<<[a |-> "score", p |-> p, v |-> IF gray[p] THEN 0 ELSE 0 - 10]>>)
+             /\ gray' = [gray EXCEPT ![p] = ~@]
+             /\ UNCHANGED <<direct, stale, rstale, wsubs, relays, kind, conn, gated, held, rup, their, bst, nmsg, faults, remotes, quiets>>
+\* a direct peer is accepted whatever its score
+Direct(p) == /\ K("direct") /\ conn[p] = "up" /\ Add(<<[a |-> "direct", p |-> p, on |-> ~direct[p]]>>)
+             /\ direct' = [direct EXCEPT ![p] = ~@]
+             /\ UNCHANGED <<gray, stale, rstale, wsubs, relays, kind, conn, gated, held, rup, their, bst, nmsg, faults, remotes, quiets>>
 
 Quiet == /\ K("quiet") /\ ~lastq /\ n > 0 /\ quiets < MaxQuiet /\ quiets' = quiets + 1
          /\ \A p \in Peers : ~gated[p] /\ ~held[p] /\ (conn[p] = "up" => rup[p])
          /\ hist' = Append(hist, [a |-> "quiet"]) /\ n' = n + 1 /\ lastq' = TRUE
-         /\ UNCHANGED <<stale, rstale, wsubs, relays, kind, conn, gated, held, rup, their, bst, nmsg, faults, remotes>>
+         /\ UNCHANGED <<gray, direct, stale, rstale, wsubs, relays, kind, conn, gated, held, rup, their, bst, nmsg, faults, remotes>>
 
 \* the buffered subscription without a reader (Next after Cancel)
 BSub    == /\ K("bsub") /\ bst = "none" /\ Add(<<[a |-> "bsub", t |-> BufTopic, size |-> 2]>>) /\ bst' = "live"
            /\ kind' = [kind EXCEPT ![BufTopic] = IF @ = "none" THEN "normal" ELSE @]
-           /\ UNCHANGED <<stale, rstale, wsubs, relays, conn, gated, held, rup, their, nmsg, faults, remotes, quiets>>
+           /\ UNCHANGED <<gray, direct, stale, rstale, wsubs, relays, conn, gated, held, rup, their, nmsg, faults, remotes, quiets>>
 BCancel == /\ K("bsub") /\ bst = "live" /\ Add(<<[a |-> "bcancel"]>>) /\ bst' = "cancelled"
-           /\ UNCHANGED <<stale, rstale, wsubs, relays, kind, conn, gated, held, rup, their, nmsg, faults, remotes, quiets>>
+           /\ UNCHANGED <<gray, direct, stale, rstale, wsubs, relays, kind, conn, gated, held, rup, their, nmsg, faults, remotes, quiets>>
 NextK(k) == /\ K("bsub") /\ bst # "none" /\ Add(<<[a |-> "next", n |-> k]>>)
-            /\ UNCHANGED <<stale, rstale, wsubs, relays, kind, conn, gated, held, rup, their, bst, nmsg, faults, remotes, quiets>>
+            /\ UNCHANGED <<gray, direct, stale, rstale, wsubs, relays, kind, conn, gated, held, rup, their, bst, nmsg, faults, remotes, quiets>>
 Msg(p)  == /\ K("bsub") /\ bst # "none" /\ conn[p] = "up" /\ rup[p] /\ nmsg < MaxMsg /\ nmsg' = nmsg + 1
            /\ Add(<<[a |-> "msg", p |-> p, t |-> BufTopic, m |-> "m" \o ToString(nmsg + 1)]>>)
-           /\ UNCHANGED <<stale, rstale, wsubs, relays, kind, conn, gated, held, rup, their, bst, faults, remotes, quiets>>
+           /\ UNCHANGED <<gray, direct, stale, rstale, wsubs, relays, kind, conn, gated, held, rup, their, bst, faults, remotes, quiets>>
 
 Next ==
     \/ \E t \in Topics : Subscribe(t) \/ Cancel(t) \/ CancelOld(t) \/ CancelAgain(t) \/ Relay(t) \/ Unrelay(t) \/ UnrelayAgain(t)
                          \/ JoinFan(t) \/ Close(t) \/ CloseBusy(t)
     \/ \E p \in Peers : Gate(p) \/ Ungate(p) \/ HPeer(p) \/ Release(p) \/ ResetIn(p) \/ DupIn(p) \/ Down(p) \/ Up(p)
                          \/ RstIn(p, "resetOut") \/ RstIn(p, "closeOut") \/ Msg(p)
+    \/ \E p \in Peers : Gray(p) \/ Direct(p)
     \/ \E p \in Peers, t \in Topics, f \in BOOLEAN : RSub(p, t, f)
     \/ \E p \in Peers, t \in Topics : RstInFlip(p, "resetOut", t) \/ RstInFlip(p, "closeOut", t)
     \/ \E p \in Peers, S \in SUBSET Topics : DupInSet(p, S)
